@@ -7,7 +7,7 @@
     universally quantified functions; their encoders only have to satisfy the round-trip hypotheses
     written in each statement (instantiated at the end of the file). *)
 From Coq Require Import List ZArith String Lia.
-From Thunder Require Import Lib.Json Args.Model Args.Spec Args.Proofs Args.ProofsReject Args.ProofsInst Gen.ArgParsers Args.Table.
+From Thunder Require Import Lib.Json Args.Model Args.Spec Args.Proofs Args.ProofsReject Args.ProofsInst Args.ProofsSubst Gen.ArgParsers Args.Table.
 Import ListNotations.
 Local Open Scope Z_scope.
 
@@ -51,6 +51,23 @@ Theorem every_rendering_parses :
     renders b64 tdec xdec t v j -> parse b64 tdec xdec t j = Ok v.
 Proof. exact Proofs.renders_parse. Qed.
 Print Assumptions every_rendering_parses.
+
+(** Literal = variable on every input, well formed or not: replacing any sub-literals that convert by
+    variables bound to the JSON they convert to ([lsub]) leaves valueToJson's result unchanged, hence
+    whatever the argument parser does with it - accept, truncate an out-of-range number, reject - it does
+    for both.  (A literal that does not convert - an integer token beyond int64 - has no JSON to bind.) *)
+Theorem literal_equals_variable_everywhere :
+  forall vars l l', lsub vars l l' -> vtj vars l' = vtj vars l.
+Proof. exact ProofsSubst.lsub_vtj. Qed.
+Print Assumptions literal_equals_variable_everywhere.
+
+Theorem transport_equivalence :
+  forall b64 tdec xdec t defs vars vars' args args',
+    apply_defaults defs vars vars = Ok vars' ->
+    lsub vars' (LObj args) (LObj args') ->
+    run_args b64 tdec xdec t defs vars args' = run_args b64 tdec xdec t defs vars args.
+Proof. exact ProofsSubst.transport_equivalence. Qed.
+Print Assumptions transport_equivalence.
 
 (** End to end for one field: Parse (defaults, argsToJson) followed by the ParseArguments call of
     PrepareQuery hands the resolver exactly the struct that was written as literals ... *)
